@@ -32,3 +32,13 @@ package common
 //@   requires s != nil
 //@   ensures [strict] result == secpVerify(pkEnc(pk), old(bytes(hash)), sigRS(*s))
 //@   modifies nothing
+
+// The Keccak sponge behind common.KeccakState (hashing is abstract everywhere): absorbing changes nothing the
+// verifier models, squeezing writes the output buffer only.
+//@ func KeccakState.Write
+//@   option trusted interface
+//@   modifies nothing
+
+//@ func KeccakState.Read
+//@   option trusted interface
+//@   modifies elems(arg0)
